@@ -271,7 +271,7 @@ def doc_example_configs(repo=REPO):
     return out
 
 
-def doc_example_bundles(repo=REPO):
+def doc_example_bundles(repo=REPO, skip_ids=()):
     """the documentation's example configurations merged into as few whole configurations as possible: an example joins the first
     bundle that does not yet configure any of its keys (rule ids, global, group names); placeholders and examples that need a
     user-defined severity are left out.  -> [(config dict, [rule ids])]"""
@@ -280,6 +280,8 @@ def doc_example_bundles(repo=REPO):
         flat = json.dumps(cfg)
         if "attributeName" in flat or "ruleId_" in flat or '"severity"' in flat or "group_name" in flat:
             continue
+        if any(r in skip_ids for r in rids):
+            continue      # the example names a rule that has since been deprecated (e.g. signal_016): VSG rejects the whole configuration
         if '"regex"' in flat and '"case": "regex"' in flat:
             continue      # naming by regular expression cannot be repaired by construction (the known C07 category "reports what it cannot repair"; explored through the option sweeps)
         keys = set()
